@@ -101,7 +101,7 @@ func plantFor(c *mon.Case, plant string, k *key, digestFree bool) (blocks [][]by
 
 func complete(x *mon.Ctx) {
 	selfTest(x)
-	total := x.Scale(660, 8800)
+	total := x.Scale(440, 8800)
 	for i := 0; i < total; i++ {
 		// first signer x plant form a complete grid every 110 cases; the other class
 		// choices are drawn per index (independent of the shard layout)
@@ -202,8 +202,11 @@ func completeCase(c *mon.Case, i int, how, dk, uc, plant string, s0 int) {
 			}
 		}
 		// observation only: with the scripted k the standard's procedure gives one signature
-		if r0, s0, e0 := sm2sig.Sign(k.d, kUsed, sm2sig.DigestToInt(in.e)); e0 == nil && bytes.Equal(sig, sm2sig.EncodeDER(r0, s0)) {
-			c.Event("signature_equals_reference_signer_with_scripted_k", 1)
+		// (first call of the case only: it costs a reference scalar multiplication)
+		if j == 0 {
+			if r0, s0, e0 := sm2sig.Sign(k.d, kUsed, sm2sig.DigestToInt(in.e)); e0 == nil && bytes.Equal(sig, sm2sig.EncodeDER(r0, s0)) {
+				c.Event("signature_equals_reference_signer_with_scripted_k", 1)
+			}
 		}
 		// the honest signature satisfies the reference equation ...
 		if want := refVerdict(in, sig); want != sm2sig.Accept {
